@@ -147,11 +147,13 @@ PLANS = {
     "C04": dict(mc=MC("mixed"), runs=[R("integrity_" + pl, (n, n * 12), (2, 4), "C04", True, own_all=True)
                                       for pl, n in (("u8", 260), ("u16", 120), ("w1", 60), ("h4", 60), ("b3", 60), ("p5", 60), ("z0", 40), ("z64", 40))],
                 assume=["bit patterns: u8 exhaustive (every value on rotating paths), u16 boundary + random, larger classes checksum-tagged ids; the TLA+ side carries identities, bytes are compared by the harness projection id <-> bytes"]),
-    "C06": dict(mc=MC("sync", "async"), spec_replay=True, runs=[R("progress", (500, 8000), (3, 6), "ALL", True, own_all=True), R("chain", (100, 2000), (2, 4), None, True, own_all=True)]),
+    "C06": dict(mc=MC("sync", "async"), spec_replay=True, runs=[R("progress", (500, 8000), (3, 6), "ALL", True, own_all=True), R("chain", (100, 2000), (2, 4), None, True, own_all=True),
+                                                                R("waiters", (250, 5000), (2, 4), None, True, own_all=True)]),
     "C09": dict(mc=MC("mixed"), runs=[R("mixed", (400, 8000), (3, 6), "C09", True, own_all=True),
                                       R("hseq", (0, 0), (1, 1), "C09", True, programs_fn=handle_programs, own_all=True)]),
     "C14": dict(mc=MC("try"), runs=[R("try", (300, 6000), (3, 6), None, True, rawmon=[("NonBlocking", "NonBlocking.cfg")]),
-                                    R("tryfreeze", (300, 6000), (2, 4), None, True, rawmon=[("NonBlocking", "NonBlocking.cfg")])]),
+                                    R("tryfreeze", (300, 6000), (2, 4), None, True, rawmon=[("NonBlocking", "NonBlocking.cfg")]),
+                                    R("trystate", (500, 8000), (1, 2), None, True, own_all=True, rawmon=[("NonBlocking", "NonBlocking.cfg")])]),
     "C15": dict(mc=MC("async"), runs=[R("fdrop", (400, 8000), (4, 8), "C15", True), R("chain", (200, 3000), (2, 6), "C15", True, own_all=True),
                                       R("fdropfreeze", (0, 0), (1, 1), "C15", True, programs_fn=freeze_sweep("fdrop", (10, 150), (30, 45), "fdropfreeze15"))]),
     "C16": dict(mc=MC("async"), runs=[R("poll", (400, 8000), (4, 8), "C16", True),
